@@ -450,6 +450,14 @@ def confirm(chk, o, prop, name):
                     m_ = re.search(r':failed.* r=(\d+)/(\d+)$', e)
                     if m_ and e.endswith('r=' + last) and int(m_.group(2)) > 0 and ':failed:notfound' not in e:
                         problems.append('the last attempt that ran (r=%s) reports a failure with %s retries left: writers count it as retried, the run is not failed: %s' % (last, m_.group(2), e))
+                # and the other way round: a failure in an attempt that IS followed by another one must announce it (retries left > 0),
+                # else writers count it as a final failure and the run is failed although the scenario may pass its retry
+                starts = [i_ for i_, e in enumerate(sc) if re.search(r':started r=', e) and ':step[' not in e and ':bg[' not in e and ':hook:' not in e]
+                if len(starts) > 1:
+                    for e in sc[:starts[-1]]:
+                        m_ = re.search(r':failed.* r=(-|\d+/(\d+))$', e)
+                        if m_ and ':failed:notfound' not in e and (m_.group(1) == '-' or int(m_.group(2)) == 0):
+                            problems.append('a failure in an attempt that is followed by another one says it is final (r=%s): writers count it as failed: %s' % (m_.group(1), e))
         if name == 'attempt-reported-failed-and-retried-correctly':
             # scripted failures repeat in every attempt: an attempt with a Failed event (step or hook) and budget left
             # must be followed by the next attempt, so a budget of N gives N+1 attempts; without a failure exactly one
